@@ -3,7 +3,7 @@ Driver for C07.  One request per line, `k=v` fields separated by single spaces.
 
   k=G m=<v1|v2c|v2|v31> op=<eq|ne|lt|le|gt|ge> l=<seq> r=<seq>     general comparison  l op r
   k=V m=… op=… l=<seq> r=<seq>                                      value comparison
-  k=B m=… f=<boolean|not|if> l=<seq>                                boolean(S) / not(S) / if (S) then 1 else 0
+  k=B m=… f=<boolean|not|if|blist> l=<seq>                          boolean(S) / not(S) / if (S) then 1 else 0 / token.boolean_value(list)
   k=L m=… f=<and|or> l=<seq> r=<seq>                                S1 and S2 / S1 or S2
   k=R q=<num>/<den>                                                 rounding self-test: toD64 / toD32
   k=C a=<D> b=<D>                                                   isclose self-test
@@ -143,6 +143,7 @@ def answer (line : String) : String :=
       let c := ebvIter l
       let s := EPV.CmpSpec.ebv l
       if f == "boolean" then s!"model={showR c} spec={showAllowed (some [s])} trig=-"
+      else if f == "blist" then s!"model={showR (ebvList l)} spec={showAllowed (some [s])} trig=-"
       else if f == "not" then s!"model={showR (notE c)} spec={showAllowed (some [EPV.CmpSpec.notS s])} trig=-"
       else if f == "if" then
         let r : Except Err Nat := ifE c (.ok 1) (.ok 0)
